@@ -47,7 +47,11 @@ type srvSUT struct {
 	byID  map[string]*srvConn
 
 	mu      sync.Mutex
-	seen    map[int]factSet // connection -> facts of every pushRequest its stream loop received
+	seen    map[int]factSet // connection -> "c:<key>" of every pushRequest its stream loop received, "f:<key>" if that request was forced
+	vers    map[int][]uint64 // connection -> snapshot versions (PushContext.PushVersion counter) of those requests, in order
+	shared  map[*model.PushRequest]reqSnap // every request object seen by a stream loop, as it read at first sight
+	nupd    int                            // updates issued so far: every update gets keys of its own (name~<n>)
+	forcedK factSet                        // keys of forced updates
 	gateArm atomic.Bool     // park the next connection reaching "init:after-addcon"
 	gateHit chan struct{}
 	gateGo  chan struct{}
@@ -182,18 +186,52 @@ func (s deltaSide) Recv() (*discovery.DeltaDiscoveryRequest, error) {
 }
 
 func newSrvSUT() *srvSUT {
-	s := &srvSUT{f: &srvFailer{}, byID: map[string]*srvConn{}, seen: map[int]factSet{}, gateHit: make(chan struct{}, 1), gateGo: make(chan struct{})}
+	s := &srvSUT{f: &srvFailer{}, byID: map[string]*srvConn{}, seen: map[int]factSet{}, vers: map[int][]uint64{},
+		shared: map[*model.PushRequest]reqSnap{}, forcedK: sets.New[string](), gateHit: make(chan struct{}, 1), gateGo: make(chan struct{})}
 	s.fs = xdsfake.NewFakeDiscoveryServer(s.f, xdsfake.FakeOptions{DebounceTime: 3 * time.Millisecond})
 	quiet.Silence()
 	s.d = s.fs.Discovery
 	inner := s.d.ProxyNeedsPush
 	s.d.ProxyNeedsPush = func(proxy *model.Proxy, req *model.PushRequest) (*model.PushRequest, bool) {
+		// called by pushConnection / pushConnectionDelta with Event.pushRequest, before anything is sent
+		_, snap, _ := pxds.VerifC02ServerState(s.d)
 		s.mu.Lock()
 		if c := s.byID[proxy.ID]; c != nil {
 			if s.seen[c.idx] == nil {
 				s.seen[c.idx] = sets.New[string]()
 			}
-			s.seen[c.idx].Merge(reqFacts(req))
+			for k := range req.ConfigsUpdated {
+				s.seen[c.idx].Insert("c:" + showConfigKey(k))
+				if req.Forced {
+					s.seen[c.idx].Insert("f:" + showConfigKey(k))
+				}
+			}
+			// "uses the newest snapshot": versions a connection is pushed with never go back
+			v := pushVersionOf(req.Push)
+			if vs := s.vers[c.idx]; len(vs) > 0 && v < vs[len(vs)-1] {
+				s.fail("push-with-older-snapshot-than-the-previous-push-of-the-connection")
+			}
+			s.vers[c.idx] = append(s.vers[c.idx], v)
+			// "at most one push in flight": the queue must still hold the connection as processing while
+			// its push runs (done() is what ends the push)
+			held := false
+			for pc := range snap.Processing {
+				if strings.HasPrefix(pc.ID(), proxy.ID+"-") {
+					held = true
+				}
+			}
+			if !held {
+				s.fail("push-running-after-done(slot-released-before-the-push-finished)")
+			}
+		}
+		// "one proxy's push never alters what another proxy is told": the request object is shared by all
+		// connections of a push round; it must read the same whenever a stream loop gets to it
+		if old, ok := s.shared[req]; ok {
+			if !old.sameContent(req) {
+				s.fail("shared-request-altered-between-proxies")
+			}
+		} else {
+			s.shared[req] = snapReq(req)
 		}
 		s.mu.Unlock()
 		return inner(proxy, req)
@@ -206,6 +244,18 @@ func newSrvSUT() *srvSUT {
 		}
 	})
 	return s
+}
+
+func pushVersionOf(pc *model.PushContext) uint64 {
+	if pc == nil {
+		return 0
+	}
+	v := pc.PushVersion
+	if i := strings.LastIndex(v, "/"); i >= 0 {
+		v = v[i+1:]
+	}
+	n, _ := strconv.ParseUint(v, 10, 64)
+	return n
 }
 
 func (s *srvSUT) close() {
@@ -293,6 +343,44 @@ func (r srvRest) quiescent() bool {
 	return r.in == r.committed && r.pushCh == 0 && r.queued == 0 && r.proc == 0 && r.tok <= 1
 }
 
+// unsettledClass names what keeps the server from coming to rest (a state class, for fingerprints).
+func (s *srvSUT) unsettledClass() string {
+	r := s.rest()
+	_, snap, _ := pxds.VerifC02ServerState(s.d)
+	switch {
+	case r.pushCh > 0:
+		return "update-stuck-in-push-channel"
+	case r.in != r.committed:
+		return "update-not-committed-by-debounce"
+	case r.proc > 0:
+		kind := "unknown-client"
+		for pc := range snap.Processing {
+			for _, c := range s.conns {
+				if strings.HasPrefix(pc.ID(), fmt.Sprintf("app%d.default-", c.idx)) {
+					k := "sotw"
+					if c.delta {
+						k = "delta"
+					}
+					st := "live"
+					if c.dead {
+						st = "gone"
+					}
+					kind = st + "-" + k + "-client"
+				}
+			}
+		}
+		if r.tok < r.proc {
+			return "processing-entry-held-without-token(" + kind + ")"
+		}
+		return "processing-entry-held(" + kind + ")"
+	case r.queued > 0:
+		return "queue-nonempty-loop-blocked"
+	case r.tok > 1:
+		return "token-held-without-processing-entry"
+	}
+	return "other"
+}
+
 func (s *srvSUT) sync() bool {
 	ok := waitUntil(func() bool { return s.rest().quiescent() })
 	if !ok {
@@ -313,6 +401,7 @@ func (s *srvSUT) sync() bool {
 }
 
 func (s *srvSUT) summary() string {
+	global := pushVersionOf(pxds.VerifE2EGlobalPushContext(s.d))
 	s.mu.Lock()
 	defer s.mu.Unlock()
 	parts := make([]string, len(s.conns))
@@ -321,11 +410,19 @@ func (s *srvSUT) summary() string {
 		case c.dead:
 			parts[i] = fmt.Sprintf("%d=dead", i)
 		default:
-			seen := s.seen[i]
-			if seen == nil {
-				seen = sets.New[string]()
+			seen := sets.New[string]()
+			for f := range s.seen[i] {
+				// "f:<key>" is reported for keys of forced updates only (a key of an unforced update may or may
+				// not have been merged with a forced one: batching)
+				if strings.HasPrefix(f, "c:") || s.forcedK.Contains(f[2:]) {
+					seen.Insert(f)
+				}
 			}
-			parts[i] = fmt.Sprintf("%d=%s", i, wire.EncSet(sets.SortedList(seen)))
+			cur := "-"
+			if vs := s.vers[i]; len(vs) > 0 {
+				cur = wire.B(vs[len(vs)-1] == global)
+			}
+			parts[i] = fmt.Sprintf("%d=%s;cur=%s", i, wire.EncSet(sets.SortedList(seen)), cur)
 		}
 	}
 	if len(parts) == 0 {
@@ -338,8 +435,14 @@ func (s *srvSUT) summary() string {
 // registered when ConfigUpdate accepted an update, and is still alive, has received a push
 // request covering it.
 func (s *srvSUT) judge() {
+	global := pushVersionOf(pxds.VerifE2EGlobalPushContext(s.d))
 	s.mu.Lock()
 	defer s.mu.Unlock()
+	for r, old := range s.shared {
+		if !old.sameContent(r) {
+			s.fail("shared-request-altered-between-proxies")
+		}
+	}
 	for i, c := range s.conns {
 		if c.dead || !c.registered {
 			continue
@@ -347,6 +450,9 @@ func (s *srvSUT) judge() {
 		seen := s.seen[i]
 		if seen == nil {
 			seen = sets.New[string]()
+		}
+		if vs := s.vers[i]; len(vs) > 0 && vs[len(vs)-1] != global {
+			s.fail("at-rest-last-push-of-a-connection-not-from-the-newest-snapshot")
 		}
 		if lost := c.expected.Difference(seen); len(lost) > 0 {
 			clause := "accepted-update-never-reached-a-connected-proxy"
@@ -420,11 +526,20 @@ func (s *srvSUT) apply(f []string) (out string) {
 		}
 		forced := f[1] == "1"
 		keys := sets.New[model.ConfigKey]()
+		facts := sets.New[string]()
 		for _, k := range wire.DecList(f[2]) {
-			keys.Insert(parseConfigKey(k))
+			// every update names keys of its own, so that each notification is an occurrence that has to
+			// arrive - not a key set that an earlier delivery could satisfy
+			ck := parseConfigKey(k + "~" + strconv.Itoa(s.nupd))
+			keys.Insert(ck)
+			facts.Insert("c:" + showConfigKey(ck))
+			if forced {
+				facts.Insert("f:" + showConfigKey(ck))
+				s.forcedK.Insert(showConfigKey(ck))
+			}
 		}
+		s.nupd++
 		req := &model.PushRequest{ConfigsUpdated: keys, Forced: forced, Reason: model.NewReasonStats(model.ConfigUpdate)}
-		facts := reqFacts(req)
 		for _, c := range s.conns {
 			if c.registered && !c.dead {
 				c.expected.Merge(facts)
@@ -487,7 +602,7 @@ func (s *srvSUT) apply(f []string) (out string) {
 			return "bad-op"
 		}
 		if !s.sync() {
-			s.fail("does-not-come-to-rest(update-not-committed-or-push-held)")
+			s.fail("does-not-come-to-rest:" + s.unsettledClass())
 			return s.summary() + " UNSETTLED"
 		}
 		s.judge()
@@ -512,7 +627,7 @@ func (s *srvSUT) apply(f []string) (out string) {
 		settled := s.sync()
 		s.ended = true
 		if !settled {
-			s.fail("does-not-come-to-rest(update-not-committed-or-push-held)")
+			s.fail("does-not-come-to-rest:" + s.unsettledClass())
 		} else {
 			s.judge()
 		}
